@@ -27,6 +27,8 @@ def s_lex_random(rng):
     s = gen.newline_variant(rng, s)
     op = {'op': 'lex', 'mode': 'triples' if maybe(rng, 0.3) else 'penman'}
     op.update(gen.container_variants(rng, s))
+    if maybe(rng, 0.25):
+        op['consume'] = rng.choice([0, 1, 1, 2, 3, 5])      # mixed use of the token iterator
     return op
 
 
@@ -209,7 +211,14 @@ def s_dereify(rng):
     m = rng.choice(['amr', 'amr', gen.CUSTOM_MODELS[1], 'default'])
     pm = py_model(m)
     v = rng.choice(gen.VARS)
-    concepts = [c for c in pm.dereifications] + ['foo', None]
+    # the concepts come from the SPEC (not from the model object under test, whose tables may be wrong)
+    if isinstance(m, dict):
+        concepts = [c for _, c, _, _ in m.get('reifs', [])]
+    elif m == 'amr':
+        concepts = [c for _, c, _, _ in gen.AMR_REIFS] + ['have-03', 'receive-01', 'include-91']
+    else:
+        concepts = []
+    concepts = concepts + ['foo', None]
     roles = [':ARG0', ':ARG1', ':ARG2', ':ARG3']
     inst = (v, ':instance' if maybe(rng, 0.95) else ':x', rng.choice(concepts))
     a = (v if maybe(rng, 0.95) else 'q', rng.choice(roles), rng.choice(gen.VARS + ['7']))
@@ -297,6 +306,17 @@ def s_graph_filter(rng):
 
 def s_graph_ops(rng):
     base = gen.gen_graph(rng)
+    if maybe(rng, 0.12) and base.triples:
+        # ask, remove one triple, add another one (same length, same top, other sources), ask again
+        t = rng.choice(base.triples)
+        new = (rng.choice(['n1', 'n2', t[0]]), rng.choice([':ARG0', ':instance', ':mod']), rng.choice(['n1', 'q', t[0]]))
+        drop, add = Graph([t]), Graph([new])
+        if maybe(rng, 0.5):
+            oplist = [['isub', 0, 1], ['ior', 0, 2]]
+        else:
+            oplist = [['sub', 0, 1], ['or', 3, 2]]
+        return {'op': 'graph_ops', 'graphs': [j_graph(base), j_graph(drop), j_graph(add)], 'ops': oplist,
+                'queries': [1, rng.choice([0, 0, 1]), 1]}
     gs = [base]
     for _ in range(rng.randint(1, 2)):
         k = rng.random()
@@ -320,7 +340,8 @@ def s_graph_ops(rng):
             continue   # self-aliasing in-place forms are outside the register model
         else:
             oplist.append([k, x, y])
-    return {'op': 'graph_ops', 'graphs': [j_graph(g) for g in gs], 'ops': oplist}
+    return {'op': 'graph_ops', 'graphs': [j_graph(g) for g in gs], 'ops': oplist,
+            'queries': [int(maybe(rng, 0.4)) for _ in range(len(oplist) + 1)]}
 
 
 def s_quote(rng):
